@@ -54,7 +54,7 @@ func (b *builder) filler(tag string, max int, need bool) {
 	}
 }
 
-var faults = []string{"undefined-symbol", "(throw \"x\")", "(nth [] 1)", "(assert false)"}
+var faults = []string{"undefined-symbol", "(throw \"x\")", "(nth [] 1)", "(assert false)", "(read-string \"(1 2\")", "(eval (read-string \"(nth [] 3)\"))"}
 
 type span struct{ from, to int }
 
@@ -158,8 +158,21 @@ func Harness_position() {
 	b.filler("u3", max, false)
 	b.add(")")
 	e := env.NewSubordinateEnv(Base)
-	ast, rerr := lisp.READ(b.s, NewCursorFile("m"), e)
-	vrt.Observe("text", b.s)
+	module := "m"
+	var cursor *Position
+	text := b.s
+	if vrt.Bool("header") {
+		// the module name comes from the first line of the text; it may contain blanks
+		module = []string{"mod", "my dir/prog.lisp", "a\tb"}[vrt.Concrete(vrt.Choice("modname", 3))]
+		text = ";; $MODULE " + module + "\n" + b.s
+		faultLine++
+		form.from++
+		form.to++
+	} else {
+		cursor = NewCursorFile("m")
+	}
+	ast, rerr := lisp.READ(text, cursor, e)
+	vrt.Observe("text", text)
 	vrt.Assert(rerr == nil, "program text rejected")
 	_, err := lisp.EVAL(context.Background(), ast, e)
 	vrt.Assert(err != nil, "the planted fault did not fail")
@@ -168,7 +181,7 @@ func Harness_position() {
 		p := pe.Position()
 		vrt.Observe("pos", p.String())
 		vrt.Observe("faultLine", faultLine)
-		vrt.Assert(p.Module != nil && *p.Module == "m", "error position names another module")
+		vrt.Assert(p.Module != nil && *p.Module == module, "error position names another module")
 		vrt.Assert(p.BeginRow >= form.from && p.Row <= form.to, "error position lies outside the top-level form that contains the faulty expression")
 		vrt.Assert(p.BeginRow <= faultLine && faultLine <= p.Row, "error position does not cover the line on which the faulty expression starts")
 	}
